@@ -32,6 +32,9 @@ class AttrView:
         self.ref = obj
         self.attrs = dict(obj.fields["__attrs"])
 
+    def __getitem__(self, name):
+        return self.attrs[name]
+
     def get(self, name):
         v = self.attrs.get(name, None)
         if v is None:
